@@ -804,8 +804,12 @@ def run(ctx):
     items = [(ctx.dir, ctx.tier, it, rnd.randrange(1 << 60)) for it in plan(ctx, rnd)]
     items.sort(key=lambda a: -a[2][2])
     nw = max(1, min(int(os.environ.get("VERIF_PY_JOBS", "8")), len(items)))
-    with ProcessPoolExecutor(max_workers=nw, mp_context=multiprocessing.get_context("spawn"), max_tasks_per_child=3) as ex:
-        results = list(ex.map(_worker, items))
+    # a fresh pool per slice of the plan: workers that ran many scenarios grew to 5-11 GB each (TF graph and trace caches) and
+    # were killed by the kernel in the thorough tier; max_tasks_per_child deadlocks in Python 3.12.1, so the pool is recycled by hand
+    results = []
+    for i0 in range(0, len(items), nw * 3):
+        with ProcessPoolExecutor(max_workers=nw, mp_context=multiprocessing.get_context("spawn")) as ex:
+            results += list(ex.map(_worker, items[i0:i0 + nw * 3]))
     results.sort(key=lambda r: r["item"][0])
     cases, records = [], []
     for r in results:
